@@ -2,14 +2,23 @@ import Pymc.Model.Client
 /-!
 # Read operations and what they return for a miss
 
-`isRead` singles out the operations `ignore_exc` is about (`get`, `gets`, `gat`, `gats`, `get_many`, `gets_many`);
-`missRes c` is what `c` returns when no requested key is stored: the caller's `default`, the pair
-`(default, cas_default)`, or an empty dict.
+`isRead` singles out the operations `ignore_exc` is about: the ones that go through `_fetch_cmd`, the only place
+where the flag is looked at — `get`, `gets`, `gat`, `gats`, `get_many`, `gets_many`, and also `stats` and
+`cache_memlimit`, which base.py implements with `_fetch_cmd` too.  (`cache_memlimit` is not a read of the cache in
+any ordinary sense; it is in `isRead` because the code makes `ignore_exc` apply to it, and
+`C07_ignore_exc_only_swallows` — "the flag changes nothing outside `isRead`" — would be false otherwise.
+`shutdown`, `version`, `flush_all`, … go through `_misc_cmd`, which never looks at the flag.)
+`missRes c` is what `c` returns when `_fetch_cmd` returns the empty dict — for the six cache reads that is the
+answer for "no requested key is stored": the caller's `default`, the pair `(default, cas_default)`, or an empty
+dict; for `stats` it is `{}`; for `cache_memlimit` it is `True`, the same value it returns on success (the
+method drops `_fetch_cmd`'s result), so with `ignore_exc` a failed `cache_memlimit` cannot be told from a
+successful one.
 -/
 namespace Client
 
 def isRead : Call → Bool
   | .get _ | .gets _ | .gat _ _ | .gats _ _ | .getMany _ | .getsMany _ => true
+  | .stats _ | .cacheMemlimit _ => true
   | _ => false
 
 def missRes : Call → Res
@@ -17,5 +26,7 @@ def missRes : Call → Res
   | .gets _ | .gats _ _ => .dfltPair
   | .getMany _ => .dict []
   | .getsMany _ => .casDict []
+  | .stats _ => .stats []
+  | .cacheMemlimit _ => .bool true
   | _ => .none
 end Client
